@@ -1040,6 +1040,11 @@ def check_one_cascade(ctx, w, cas, cs_seed):
         _LATER_BREAKS.clear()
     stages = cas["stages"]
     arg = cas["arg"] if not isinstance(cas["arg"], dict) else sc.odict(cas["arg"])
+    if isinstance(cas["arg"], dict) and rng.random() < 0.35:
+        # a single-constituent stage may be written as the bare name instead of a one-element list
+        arg = sc.odict((k, (v[0] if isinstance(v, list) and len(v) == 1 else v)) for k, v in cas["arg"].items())
+        if any(isinstance(v, str) for v in arg.values()):
+            ctx.count("cascade.bare_string_stage")
     # population selection
     r = rng.random()
     if r < 0.4:
@@ -1149,6 +1154,16 @@ def check_cascade_data(ctx, w, cas, arg, pops_arg, members, rng, cs_seed):
     import sciris as sc
 
     data = w.P.data
+    hole = None
+    if cas.get("directed") == "first-constituent-recurs" and len(members) >= 2:
+        # directed: the FIRST of the requested populations has no databook entry for a constituent in some year while the later ones do -- the stage has no value there (NaN), never the sum over the others
+        data = sc.dcp(w.P.data)
+        lab = cas["stages"][0][1][0]
+        ts0 = data.get_ts(lab, members[0])
+        if ts0 is not None and len(ts0.t) >= 1:
+            hole = float(ts0.t[len(ts0.t) // 2])
+            ts0.remove(hole)
+            ctx.count("cascade.data.hole_in_leading_population")
     fw = w.P.framework
     stages = cas["stages"]
     if isinstance(pops_arg, dict):
@@ -1162,12 +1177,17 @@ def check_cascade_data(ctx, w, cas, arg, pops_arg, members, rng, cs_seed):
                 cons_all.append(c)
     # databook entries
     tss = {(c, p): data.get_ts(c, p) for c in cons_all for p in members}
-    if rng.random() < 0.5:
+    if rng.random() < 0.5 and hole is None:
         years = None
         tt = np.array(data.tvec, dtype=float)
     else:
         pool = sorted({float(x) for ts in tss.values() if ts is not None for x in ts.t}) or [float(data.tvec[0])]
         years = sorted({rng.choice(pool) if rng.random() < 0.7 else float(rng.choice(list(data.tvec))) + rng.choice([0.0, 0.5]) for _ in range(rng.randint(1, 3))})
+        if rng.random() < 0.4:
+            years = sorted(set(years) | {float(rng.choice(pool)) + rng.choice([0.01, -0.01, 0.004])})   # close to a data year but not equal to it: there is no entry for that time
+            ctx.count("cascade.data.near_year")
+        if hole is not None:
+            years = sorted(set(years) | {hole})
         tt = np.array(years)
     snap = {k: (None if ts is None else (list(ts.t), list(ts.vals))) for k, ts in tss.items()}
     try:
@@ -1443,6 +1463,29 @@ def check_defaults(ctx, w):
             ctx.violation({"api": "PlotData.__init__", "defect": "total_number_is_not_sum"}, f"{w.name}: PlotData(result, pops='total') series {s.output} = {s.vals[0]!r}, sum over populations = {tot[0]!r}", {"kind": "defaults", "demo": w.name})
 
 
+def check_multi_cascade_rows(ctx, w):
+    """the multi-year cascade table reports one row per requested (result, year) -- also when two requested years fall in the same calendar year"""
+    import atomica as at
+    import matplotlib.pyplot as plt
+
+    if w.name not in ("udt", "tb_simple", "hypertension_dyn", "diabetes"):
+        return
+    y0 = float(w.t[min(2, len(w.t) - 1)])
+    years = [math.floor(y0) + 0.0, math.floor(y0) + 0.5] if math.floor(y0) + 0.5 <= float(w.t[-1]) else [float(w.t[0]), float(w.t[0]) + 0.5]
+    try:
+        fig, table = at.cascade.plot_multi_cascade(w.result, cascade=0, pops="all", year=years, show_table=False)
+        plt.close("all")
+    except Exception as ex:
+        ctx.notes.append(f"multi-cascade rows probe on {w.name}: {type(ex).__name__}: {str(ex)[:120]}")
+        return
+    ctx.count("probe.multi_cascade_rows")
+    ctx.case({"probe": "multi-cascade-rows", "demo": w.name}, nontrivial=True)
+    rows = list(table["rowlabels"])
+    if len(rows) != len(years) or len(set(rows)) != len(years) or len(table["text"]) != len(years):
+        ctx.violation({"api": "plot_multi_cascade", "defect": "rows_collapse_within_calendar_year"},
+                      f"{w.name}: plot_multi_cascade(year={years}) returns a table with rows {rows} ({len(table['text'])} rows of values) for {len(years)} requested years", {"kind": "multi_cascade_rows", "demo": w.name, "years": years})
+
+
 def check_mixed_dt(ctx, w):
     """'depends only on the quantities, populations and period that were asked for': what PlotData reports for one result does not depend on which OTHER result is passed in the same
     call -- in particular not on the other result's step size (flows are annualised with the step of their own run)."""
@@ -1483,6 +1526,7 @@ def run_demo(ctx, name, n_uni, max_calls, n_adhoc, n_seq):
         return
     check_defaults(ctx, w)
     check_mixed_dt(ctx, w)
+    check_multi_cascade_rows(ctx, w)
     if len(w.junction_link_selectors) >= 2:
         # directed: a weighted average of flows that leave junctions (the random stream reaches it only now and then)
         labs = ctx.rng.sample(w.junction_link_selectors, min(len(w.junction_link_selectors), ctx.rng.choice([2, 3])))
